@@ -596,11 +596,22 @@ func (r *run) setupC02(t *sim.Tape) {
 		u := &unstructured.Unstructured{Object: map[string]any{"apiVersion": "pkg.crossplane.io/v1", "kind": RevGK[p.Kind].Kind,
 			"metadata": map[string]any{"name": name, "labels": map[string]any{"theirs": "yes"}},
 			"spec":     map[string]any{"desiredState": "Inactive", "image": "registry.example.org/other/thing:v9", "revision": int64(7)}}}
+		what := "placed/package-revision-name"
+		if t.Next(2) == 0 {
+			// the still active revision of an earlier incarnation of the package
+			// (deleted and created again under the same name): it carries the
+			// parent-package label and is controlled by the old object's UID
+			u.SetLabels(map[string]string{pkgv1.LabelParentPackage: p.Name})
+			_ = unstructured.SetNestedField(u.Object, "Active", "spec", "desiredState")
+			_ = unstructured.SetNestedField(u.Object, Registry+"/"+p.Repo+":"+tag, "spec", "image")
+			_ = unstructured.SetNestedField(u.Object, int64(1), "spec", "revision")
+			what = "placed/revision-of-earlier-package-incarnation"
+		}
 		u.SetOwnerReferences(ownerRefs("v1", "ConfigMap", "stranger", "stranger-uid", true))
 		if w.Direct.Create(ctx, u) == nil {
 			k := simapi.ObjKey{Group: RevGK[p.Kind].Group, Kind: RevGK[p.Kind].Kind, Name: name}
 			r.guard[k] = simapi.Digest(w.Store.Peek(k))
-			w.S.Probe("placed/package-revision-name")
+			w.S.Probe(what)
 		}
 	}
 	for k := range r.foreign {
